@@ -131,6 +131,8 @@ def cmdEvents (lim : Limits) (scfg : StackCfg) (line : String) : List Ev × Bool
     let s := String.ofList bytes
     ([.lpcError (trimNl s!"Bad argument 1 to allocate(), Expected: int Got: \"{s}\"."), .result "r badarg !err"], true)
   | "prog" :: _ => ([], true)
+  | "preload" :: _ => ([], true)          -- limit-edge family: load before the limits are lowered
+  | "cfglim" :: _ => ([], true)           -- limit-edge family: small configured limits (programs only)
   | ["run", name, fn] => ([.result s!"fz {name} {fn} done"], true)
   | "stackprog" :: d :: n :: rest =>
     match d.toNat?, n.toNat?, (rest.head?.getD "0").toNat? with
